@@ -213,7 +213,6 @@ theorem execProg_inv (p : Prog) (ctx : List (String × CV)) (st : St) (h : execP
   unfold execProg at h
   simp only [Option.map_eq_some_iff] at h
   obtain ⟨⟨u, st1⟩, h1, rfl⟩ := h
-  exact (Pres.execProgM defaultFuel p ctx).apply
-    ⟨fun v hv => (by cases hv), fun b hb => (by cases hb), Clean.nil⟩ h1
+  exact (Pres.execProgM defaultFuel p ctx).apply stInv_init h1
 
 end MJ.Safe
